@@ -8,7 +8,7 @@ for f in $(git diff --name-only --diff-filter=U); do
     seeded/*/meta.json) git checkout --theirs -- "$f"; git add "$f";;
     findings/known-findings.txt)
       git show :2:"$f" > /tmp/kf.ours; git show :3:"$f" > /tmp/kf.theirs
-      cat /tmp/kf.ours > "$f"; grep -vxFf /tmp/kf.ours /tmp/kf.theirs >> "$f"; git add "$f";;
+      echo "CONFLICT in known-findings.txt: taking theirs for their property lines needs a manual look"; cat /tmp/kf.ours > "$f"; grep -vxFf /tmp/kf.ours /tmp/kf.theirs >> "$f"; git add "$f";;
     *) echo "UNRESOLVED: $f";;
   esac
 done
